@@ -555,6 +555,10 @@ func preservedHeap(h string, pres []string) bool {
 		if strings.HasPrefix(h, "H_"+strings.ReplaceAll(p, ".", "_")+".") {
 			return true
 		}
+		// elements of slices/arrays of that struct type
+		if h == "E_S_"+strings.ReplaceAll(p, ".", "_") {
+			return true
+		}
 	}
 	return strings.HasPrefix(h, "G_ghost.")
 }
